@@ -85,6 +85,7 @@ pub open spec fn bit_count_from(d: int, b: nat) -> nat
 pub open spec fn copy_bit_count(d: int) -> nat { bit_count_from(d, 4) }
 
 /// byte-by-byte copy of n bytes from `off` bytes back (2.4.1.3.11 Byte Copy): overlapping copies repeat
+#[verifier::opaque]
 pub open spec fn copy_bytes(out: Seq<u8>, off: int, n: int) -> Seq<u8>
     decreases n
 {
@@ -94,6 +95,7 @@ pub open spec fn copy_bytes(out: Seq<u8>, off: int, n: int) -> Seq<u8>
 /// TokenSequences of one compressed chunk: data bytes [p, e); `flags`/`k` = current FlagByte and the index of its next bit
 /// (k == 8: a new FlagByte is due); `out` = whole decompressed buffer, `start` = DecompressedChunkStart.
 /// None = malformed (token crosses the chunk end, copy offset reaches before the chunk's start).
+#[verifier::opaque]
 pub open spec fn dec_toks(s: Seq<u8>, p: int, e: int, flags: u8, k: int, out: Seq<u8>, start: int) -> Option<Seq<u8>>
     decreases e - p
 {
@@ -114,6 +116,7 @@ pub open spec fn dec_toks(s: Seq<u8>, p: int, e: int, flags: u8, k: int, out: Se
 }
 
 /// CompressedChunk* from position i (a chunk boundary) to the end of the container
+#[verifier::opaque]
 pub open spec fn dec_chunks(s: Seq<u8>, i: int, out: Seq<u8>) -> Option<Seq<u8>>
     decreases s.len() - i
 {
@@ -146,6 +149,7 @@ pub open spec fn valid_container(s: Seq<u8>) -> bool { decode_opt(s) is Some }
 pub open spec fn decode(s: Seq<u8>) -> Seq<u8> { decode_opt(s).unwrap() }
 
 /// bit index reached when the token stream [p, e) is exhausted (8 = the last FlagByte had all of its 8 tokens)
+#[verifier::opaque]
 pub open spec fn end_k(s: Seq<u8>, p: int, e: int, flags: u8, k: int) -> int
     decreases e - p
 {
@@ -156,6 +160,7 @@ pub open spec fn end_k(s: Seq<u8>, p: int, e: int, flags: u8, k: int) -> int
     else { end_k(s, p + 2, e, flags, k + 1) }
 }
 /// no compressed chunk that is followed by another chunk ends on a full group of 8 tokens
+#[verifier::opaque]
 pub open spec fn no_full_group_boundary(s: Seq<u8>, i: int) -> bool
     decreases s.len() - i
 {
@@ -171,6 +176,7 @@ proof fn lemma_copy_small(out: Seq<u8>, off: int, n: int)
     ensures copy_bytes(out, off, n) == out + out.subrange(out.len() - off, out.len() - off + n),
     decreases n,
 {
+    reveal(copy_bytes);
     if n == 0 {
         assert(out + out.subrange(out.len() - off, out.len() - off) =~= out);
     } else {
@@ -185,6 +191,7 @@ proof fn lemma_copy_add(out: Seq<u8>, off: int, a: int, b: int)
     ensures copy_bytes(out, off, a + b) == copy_bytes(copy_bytes(out, off, a), off, b),
     decreases a,
 {
+    reveal(copy_bytes);
     if a > 0 {
         lemma_copy_add(out.push(out[out.len() - off]), off, a - 1, b);
     }
@@ -195,6 +202,7 @@ proof fn lemma_copy_len(out: Seq<u8>, off: int, n: int)
     ensures copy_bytes(out, off, n).len() == out.len() + n,
     decreases n,
 {
+    reveal(copy_bytes);
     if n > 0 { lemma_copy_len(out.push(out[out.len() - off]), off, n - 1); }
 }
 
@@ -227,6 +235,60 @@ proof fn lemma_flag_bit(f: u8, k: i32)
     else { assert(((f & (1u8 << 7i32)) == 0) == ((f / 128) % 2 == 0)) by (bit_vector); }
 }
 
+/// end of the container reached
+proof fn lemma_chunks_end(s: Seq<u8>, i: int, out: Seq<u8>)
+    requires i >= s.len(),
+    ensures dec_chunks(s, i, out) == (if i == s.len() { Some(out) } else { None::<Seq<u8>> }),
+{
+    reveal(dec_chunks);
+}
+
+// ---- single steps of dec_toks / end_k (the functions are opaque in the body of decompress_stream; every step is an explicit lemma call)
+proof fn lemma_toks_end(s: Seq<u8>, p: int, e: int, f: u8, k: int, out: Seq<u8>, start: int)
+    requires p >= e,
+    ensures dec_toks(s, p, e, f, k, out, start) == (if p == e { Some(out) } else { None::<Seq<u8>> }), end_k(s, p, e, f, k) == k,
+{
+    reveal(dec_toks); reveal(end_k);
+}
+proof fn lemma_toks_some(s: Seq<u8>, p: int, e: int, f: u8, k: int, out: Seq<u8>, start: int)
+    requires dec_toks(s, p, e, f, k, out, start) is Some,
+    ensures p <= e,
+{
+    reveal(dec_toks);
+}
+proof fn lemma_toks_flag(s: Seq<u8>, p: int, e: int, f: u8, out: Seq<u8>, start: int)
+    requires p < e,
+    ensures dec_toks(s, p, e, f, 8, out, start) == dec_toks(s, p + 1, e, s[p], 0, out, start), end_k(s, p, e, f, 8) == end_k(s, p + 1, e, s[p], 0),
+{
+    reveal(dec_toks); reveal(end_k);
+}
+/// with k == 8 the old FlagByte is irrelevant
+proof fn lemma_toks_k8(s: Seq<u8>, p: int, e: int, f1: u8, f2: u8, out: Seq<u8>, start: int)
+    ensures dec_toks(s, p, e, f1, 8, out, start) == dec_toks(s, p, e, f2, 8, out, start), end_k(s, p, e, f1, 8) == end_k(s, p, e, f2, 8),
+{
+    reveal(dec_toks); reveal(end_k);
+}
+proof fn lemma_toks_literal(s: Seq<u8>, p: int, e: int, f: u8, k: int, out: Seq<u8>, start: int)
+    requires p < e, 0 <= k < 8, !flag_bit(f, k),
+    ensures dec_toks(s, p, e, f, k, out, start) == dec_toks(s, p + 1, e, f, k + 1, out.push(s[p]), start),
+        end_k(s, p, e, f, k) == end_k(s, p + 1, e, f, k + 1),
+{
+    reveal(dec_toks); reveal(end_k);
+}
+proof fn lemma_toks_copy(s: Seq<u8>, p: int, e: int, f: u8, k: int, out: Seq<u8>, start: int)
+    requires p < e, 0 <= k < 8, flag_bit(f, k), dec_toks(s, p, e, f, k, out, start) is Some,
+    ensures
+        p + 2 <= e,
+        tok_off(u16_at(s, p), copy_bit_count(out.len() - start)) <= out.len() - start,
+        dec_toks(s, p, e, f, k, out, start) == dec_toks(s, p + 2, e, f, k + 1,
+            copy_bytes(out, tok_off(u16_at(s, p), copy_bit_count(out.len() - start)), tok_len(u16_at(s, p), copy_bit_count(out.len() - start))), start),
+        end_k(s, p, e, f, k) == end_k(s, p + 2, e, f, k + 1),
+{
+    reveal(dec_toks); reveal(end_k);
+}
+/// FlagByte as far as the invariant of the token loop is concerned: irrelevant once all 8 bits are used
+pub open spec fn fl(f: u8, k: int) -> u8 { if k >= 8 { 0u8 } else { f } }
+
 /// one unfolding of dec_chunks / no_full_group_boundary at a chunk boundary i < |s| of a valid container
 proof fn lemma_chunk_unfold(s: Seq<u8>, i: int, out: Seq<u8>)
     requires dec_chunks(s, i, out) is Some, i < s.len(),
@@ -246,6 +308,8 @@ proof fn lemma_chunk_unfold(s: Seq<u8>, i: int, out: Seq<u8>)
             no_full_group_boundary(s, e) && (e < s.len() && hdr_compressed(u16_at(s, i)) ==> end_k(s, i + 2, e, 0, 8) != 8)
         }),
 {
+    reveal(dec_chunks);
+    reveal(no_full_group_boundary);
     let e = i + hdr_size(u16_at(s, i)) + 3;
     if no_full_group_boundary(s, i) && e >= s.len() {
         assert(no_full_group_boundary(s, e));
@@ -287,6 +351,8 @@ pub open spec fn chunk_facts(sq: Seq<u8>, cs: int, e: int, full: Option<Seq<u8>>
         invariant 1 <= i, s@.len() <= isize::MAX, is_p2_table(POWER_2), sq == s@,
             ok ==> (full is Some && full == dec_chunks(sq, i as int, res@) && no_full_group_boundary(sq, i as int)),
         decreases (if i < s@.len() { s@.len() - i } else { 0 }),
+//@@ before /let chunk_header = /
+        let ghost res_top = res@;
 //@@ after /let chunk_flag = [^;]*;/
         let ghost cs = i - 2;
         let ghost e = cs + (chunk_size as int) + 3;
@@ -299,29 +365,24 @@ pub open spec fn chunk_facts(sq: Seq<u8>, cs: int, e: int, full: Option<Seq<u8>>
             assert((chunk_header & 0x8000) >> 15 == chunk_header / 32768) by (bit_vector);
             if ok {
                 assert(res@ == res_top);
-                assert(full == dec_chunks(sq, cs, res_top));
-                assert(cs < sq.len());
                 lemma_chunk_unfold(sq, cs, res_top);
-                assert(cs + 2 <= sq.len());
                 assert(s@.subrange(cs, s@.len() as int)[0] == sq[cs] && s@.subrange(cs, s@.len() as int)[1] == sq[cs + 1]);
                 assert(chunk_header as int == u16_at(sq, cs));
-                assert(hdr_sig(chunk_header as int) == 3);
-                assert(e <= sq.len());
                 if chunk_flag != 0 {
                     assert(hdr_compressed(chunk_header as int));
                     assert(chunk_facts(sq, cs, e, full, tgt, ek, start as int));
                 } else {
                     assert(!hdr_compressed(chunk_header as int));
-                    assert(hdr_size(chunk_header as int) == 4095);
-                    assert(full == dec_chunks(sq, e, base + sq.subrange(cs + 2, e)));
-                    assert(no_full_group_boundary(sq, e));
+                    assert(e == cs + 4098);
                 }
             }
         }
 //@@ after /i \+= 4096;/
-            proof { if ok { assert(s@.subrange(cs + 2, e) == sq.subrange(cs + 2, e)); } }
-//@@ before /let chunk_header = /
-        let ghost res_top = res@;
+            proof { if ok {
+                assert(s@.subrange(cs + 2, e) == sq.subrange(cs + 2, e));
+                assert(res@ == base + sq.subrange(cs + 2, e));
+                assert(i == e);
+            } }
 //@@ before /let start = /
         let ghost i_chunk = i;
 //@@ loop 1
@@ -333,8 +394,9 @@ pub open spec fn chunk_facts(sq: Seq<u8>, cs: int, e: int, full: Option<Seq<u8>>
                     1 <= i, i_chunk <= i, s@.len() <= isize::MAX, is_p2_table(POWER_2), chunk_size <= 4095, start <= res@.len(), sq == s@,
                     chunk_len == i - (cs + 2), e == cs + chunk_size + 3,
                     ok ==> chunk_facts(sq, cs, e, full, tgt, ek, start as int),
+                    ok ==> full is Some,
                 ensures
-                    ok ==> (i == e && tgt == Some(res@)),
+                    ok ==> (full is Some && full == dec_chunks(sq, i as int, res@) && no_full_group_boundary(sq, i as int)),
                 decreases (if i < s@.len() { s@.len() - i } else { 0 }),
 //@@ loop 2 it
                     invariant
@@ -345,39 +407,55 @@ pub open spec fn chunk_facts(sq: Seq<u8>, cs: int, e: int, full: Option<Seq<u8>>
                         it.seq().len() == 8, forall|k: int| 0 <= k < 8 ==> it.seq()[k] == k,
                         chunk_len == i - (cs + 2), e == cs + chunk_size + 3,
                         ok ==> chunk_facts(sq, cs, e, full, tgt, ek, start as int),
-                        ok ==> (tgt == dec_toks(sq, i as int, e, bit_flags, it.index@ as int, res@, start as int) && ek == end_k(sq, i as int, e, bit_flags, it.index@ as int)),
+                        ok ==> full is Some,
+                        ok ==> (tgt == dec_toks(sq, i as int, e, fl(bit_flags, it.index@ as int), it.index@ as int, res@, start as int)
+                            && ek == end_k(sq, i as int, e, fl(bit_flags, it.index@ as int), it.index@ as int)),
+//@@ before /break;/
+                    proof { if ok {
+                        lemma_toks_some(sq, i as int, e, 0u8, 8, res@, start as int);
+                        lemma_toks_end(sq, i as int, e, 0u8, 8, res@, start as int);
+                    } }
+//@@ before /break 'chunk;/
+                        proof { if ok {
+                            lemma_toks_some(sq, i as int, e, fl(bit_flags, it.index@ as int), it.index@ as int, res@, start as int);
+                            lemma_toks_end(sq, i as int, e, fl(bit_flags, it.index@ as int), it.index@ as int, res@, start as int);
+                        } }
 //@@ before /let bit_flags = /
                 let ghost i_top = i;
 //@@ after /chunk_len \+= 1;/#0of2
                 proof {
                     if ok {
                         // the chunk's data is not exhausted here: a next FlagByte is really due
-                        assert(i_top <= e);
+                        lemma_toks_some(sq, i_top as int, e, 0u8, 8, res@, start as int);
                         if i_top == e {
-                            assert(end_k(sq, i_top as int, e, 0u8, 8) == 8);
+                            lemma_toks_end(sq, i_top as int, e, 0u8, 8, res@, start as int);
                             assert(false);
                         }
-                        assert(dec_toks(sq, i_top as int, e, 0u8, 8, res@, start as int) == dec_toks(sq, i_top + 1, e, sq[i_top as int], 0, res@, start as int));
-                        assert(end_k(sq, i_top as int, e, 0u8, 8) == end_k(sq, i_top + 1, e, sq[i_top as int], 0));
+                        lemma_toks_flag(sq, i_top as int, e, 0u8, res@, start as int);
                     }
                 }
 //@@ before /if \(bit_flags & /
+                    let ghost kk = it.index@ as int;
+                    let ghost i_tok = i;
+                    let ghost res0 = res@;
                     proof {
                         lemma_flag_bit(bit_flags, bit_index);
-                        assert(bit_index == it.index@);
+                        assert(bit_index == kk);
                         if ok { assert(i < e); }
                     }
 //@@ before /res\.push\(s\[i\]/
                         proof {
                             //# C06.literal_past_end
                             assert(i < s@.len());
+                            if ok { lemma_toks_literal(sq, i as int, e, bit_flags, kk, res@, start as int); }
                         }
+//@@ after /chunk_len \+= 1;/#1of2
+                        proof { if ok && kk == 7 { lemma_toks_k8(sq, i as int, e, bit_flags, 0u8, res@, start as int); } }
 //@@ before /let token = /
-                        let ghost i_tok = i;
                         proof {
                             //# C06.copy_token_past_end
                             assert(i + 2 <= s@.len());
-                            if ok { assert(i + 2 <= e); }
+                            if ok { lemma_toks_copy(sq, i as int, e, bit_flags, kk, res@, start as int); }
                         }
 //@@ before /let bit_count = /
                         proof {
@@ -417,7 +495,6 @@ pub open spec fn chunk_facts(sq: Seq<u8>, cs: int, e: int, full: Option<Seq<u8>>
                             decreases len,
 //@@ before /while len > offset/
                         let ghost len0 = len;
-                        let ghost res0 = res@;
 //@@ before /buf\[\.\.offset\]\s*\.copy/
                             let ghost r1 = res@;
 //@@ before /len -= offset/
@@ -435,9 +512,13 @@ pub open spec fn chunk_facts(sq: Seq<u8>, cs: int, e: int, full: Option<Seq<u8>>
                             if ok {
                                 lemma_copy_small(r2, offset as int, len as int);
                                 assert(res@ =~= r2 + r2.subrange(r2.len() - offset, r2.len() - offset + len));
+                                lemma_copy_add(res@, offset as int, 0, 0);
                                 assert(res@ == copy_bytes(res0, offset as int, len0 as int));
+                                if kk == 7 { lemma_toks_k8(sq, i as int, e, bit_flags, 0u8, res@, start as int); }
                             }
                         }
+//@@ before /Ok\(res\)/
+    proof { if ok { lemma_chunks_end(sq, i as int, res@); } }
 //@@ end
 
 } // verus!
